@@ -206,8 +206,8 @@ PROPS = {
         'assumptions': ["H-RND"],
     },
     'C14': {
-        'proofs': ['Ww.Proofs.C14'],
-        'gen_sections': ['Cookies'],
+        'proofs': ['Ww.Proofs.C14', 'Ww.Proofs.GenTie.C14'],
+        'gen_sections': ['Cookies', 'Dec/cookieMake', 'Dec/cookieClear', 'pkg/cookie/cookie.go'],
         'drivers': [{'name': 'cook'}],
         'reasons': ['C14.'],
         'class_fields': {'setcookie': ['sso', 'cfgsecure', 'cfgsamesite', 'op', 'class', 'clear', 'domain', 'path', 'secure', 'samesite'], 'jar': ['after', 'status', 'names', 'sso'], 'cookieval14': ['secure', 'samesite', 'hostnames', 'schemes', 'accepted'],
@@ -218,7 +218,7 @@ PROPS = {
         'level_text': "Proof: Make/Clear always set HttpOnly and copy Secure/SameSite/Domain/Path; per-mode options (Secure = configured flag, SameSite=None only in SSO mode with that setting, standalone scoped to the ingress path without Domain, "
                       "SSO to the configured domain); insecure cookies only with all-localhost http ingresses (validation); over the REGENERATED call-site table every cookie is set and cleared with one scope expression; jar theorem: after any history "
                       "of consistently scoped Set-Cookies ending in an accepted clear of n, no cookie named n remains (induction over the history).",
-        'level_note': "Trusted: Lean kernel; call-site extractor (receiver-name heuristic for SetCookie methods, checked: no 'unknown:' entries); net/http cookie serialisation (leading dot dropped) compared by the driver; RFC 6265 browser (H-BROWSER) - the harness jar implements the same rules as the Lean jar.",
+        'level_note': "Trusted: Lean kernel; call-site extractor (receiver-name heuristic for SetCookie methods, checked: no 'unknown:' entries); net/http cookie serialisation (leading dot dropped) compared by the driver; RFC 6265 browser (H-BROWSER) - the harness jar implements the same rules as the Lean jar. cookie.Make / cookie.Clear are machine-translated from cookie.go on each run and the model's makeCookie / clearCookie are PROVED equal to the translations (Ww.Proofs.GenTie.C14).",
         'technique': 'Lean 4: attribute lemmas, decide over the regenerated cookie call-site table, inductive jar invariant; per-attribute differential of every emitted Set-Cookie',
         'trusted': ["H-BROWSER (RFC 6265)", "net/http SetCookie serialisation"],
         'assumptions': ["H-BROWSER"],
